@@ -325,6 +325,12 @@ PLAIN_FILES = {
         '"', "'", '\\"', "\\'", '"' * 3, "'" * 3, "{", "}", "{ }", "[ ]", '[ " ]', "{ ' }", ";", ",", '";', "},",
         '"' + "'" + '"', '        "', "\t'", ' " ', '""', "''", "[]", "{}", '["', '"]', "\\", "\\\\", '"\\""',
         "banner motd ^C", "^C", '" "', "' '"]),
+    # BGP communities after "set community" are no secrets: every notation, at the limits of its numbers
+    "bgp-communities": "".join(" set community %s\n" % c for c in [
+        "0", "1", "65535", "65536", "100000", "6553700", "4294967041", "4294967295", "99999999999", "0:0", "65535:65535",
+        "65000:100", "100000:1", "4294967295:4294967295", "peeras:100", "100:peeras", "$as:$tag", "no-export", "no-advertise",
+        "local-AS", "internet", "gshut", "none", "6553700 additive", "no-export additive", "65000:100 65000:200 additive",
+        "(6553700)", "(65000:100 65000:200)", "( no-export )"]),
 }
 
 
